@@ -1525,7 +1525,7 @@ def main_prog(PTARGETS=None, P_OUT=None, own=False):
         body = ("/- GENERATED by tools/rs2lean.py from the Rust sources on every run -- do not edit. -/\n"
             "import Orx.RS.Prog\nset_option linter.unusedVariables false\nnamespace Orx.GenP\nopen Orx Orx.RSP\n"
             "open Orx.RS (AtomicH CounterSelf AtomicBoolH Next NextChunk Ord3)\n\n" +
-            "\n".join(text_of[n] for n in order) + "\nend Orx.GenP\n")
+            "\n".join(text_of[n] for n in order) + "\n" + proto_facts() + "end Orx.GenP\n")
     old = open(P_OUT).read() if os.path.exists(P_OUT) else None
     if old != body:
         open(P_OUT, "w").write(body)
@@ -1680,6 +1680,19 @@ def impl_fn_names(text, impl_pat):
             end = match_brace(text, m.end() - 1)
             return re.findall(r"\bfn\s+(\w+)", text[m.end():end])
     raise LookupError("no impl matching " + impl_pat)
+
+
+def proto_facts():
+    """which `Iterator` / `ExactSizeIterator` methods the wrapper's chunk value iterator defines, and whether it has a `Drop`"""
+    txt = strip_comments(open(os.path.join(SRC, "iter/buffered/iter.rs")).read())
+    it = impl_fn_names(txt, r"Iterator for BufferedIter<'a, T>")
+    ex = impl_fn_names(txt, r"ExactSizeIterator for BufferedIter<'a, T>")
+    has_drop = re.search(r"impl[^{;]*\bDrop\s+for\s+BufferedIter\s*<", txt) is not None
+    return ("/-- the `Iterator` methods the chunk value iterator of buffered/iter.rs defines (every other one is std's default over `next`) -/\n"
+            "def ChunkIt.iterator_overrides : List String := [%s]\n\n"
+            "/-- its `ExactSizeIterator` methods -/\ndef ChunkIt.exact_size_overrides : List String := [%s]\n\n"
+            "/-- whether it has a `Drop` impl (it has none: unconsumed slots stay in the buffer, which owns them) -/\n"
+            "def ChunkIt.has_drop : Bool := %s\n\n" % (", ".join('"%s"' % n for n in it), ", ".join('"%s"' % n for n in ex), "true" if has_drop else "false"))
 
 
 def own_facts():
